@@ -240,8 +240,27 @@ type corpusItem struct {
 	name string
 }
 
+// v6Shuffled is a DHCPv6 message with a drawn subset of the corpus options in a
+// drawn order, some of them twice: every option gets to be first, last, alone
+// and repeated.
+func v6Shuffled(variant int, t *simrt.Tape) []byte {
+	opts := v6Options(variant)
+	b := []byte{[]byte{1, 2, 3, 7}[variant%4], 0xab, 0xce, byte(variant)}
+	n := 1 + t.Choose(len(opts))
+	for _, i := range t.Perm(len(opts))[:n] {
+		b = append(b, opts[i]...)
+		if t.Coin(1, 10) {
+			b = append(b, opts[i]...)
+		}
+	}
+	return b
+}
+
 func corpus(t *simrt.Tape) corpusItem {
 	variant := t.Choose(40)
+	if t.Coin(1, 4) {
+		return corpusItem{v6: true, wire: v6Shuffled(variant, t), name: fmt.Sprintf("v6shuffled#%d", variant)}
+	}
 	switch t.Weighted(3, 4, 3) {
 	case 0:
 		return corpusItem{v6: false, wire: v4Packet(variant), name: fmt.Sprintf("v4#%d", variant)}
